@@ -33,6 +33,8 @@ const (
 	itTerminating = 2 // pod update: deletionTimestamp set
 	itDelete      = 3 // pod deleted
 	itPodAdd      = 4 // a pod arrives (possibly before its node)
+	itUnbound     = 5 // pod update / resync whose object still has no nodeName (Flag: same resourceVersion)
+	itBound       = 6 // the update that shows the pod bound to the node the cache bound it to (delivered only if the cache holds it as Binding)
 )
 
 type item struct {
@@ -41,6 +43,7 @@ type item struct {
 	Node sched.NodeSpec
 	Task int64
 	Pod  sched.TaskSpec
+	Flag bool
 }
 
 func (b bindCase) hasEvents() bool {
@@ -74,8 +77,10 @@ func (b bindCase) enc() []int64 {
 		case itNode:
 			n := it.Node
 			out = append(out, n.ID, vh.B(n.Has), n.CPU, n.Mem, n.Pods, n.GPU)
-		case itTerminating, itDelete:
+		case itTerminating, itDelete, itBound:
 			out = append(out, it.Task)
+		case itUnbound:
+			out = append(out, it.Task, vh.B(it.Flag))
 		case itPodAdd:
 			t := it.Pod
 			out = append(out, sched.EpsUnits, t.ID, t.Job, t.Role, t.Prio, t.CPU, t.Mem, t.GPU, t.Status, t.Node, vh.B(t.Preemptable))
@@ -109,8 +114,11 @@ func decBind(in []int64) bindCase {
 			it.Bind = [3]int64{r.Next(), r.Next(), r.Next()}
 		case itNode:
 			it.Node = sched.NodeSpec{ID: r.Next(), Has: r.Bool(), CPU: r.Next(), Mem: r.Next(), Pods: r.Next(), GPU: r.Next()}
-		case itTerminating, itDelete:
+		case itTerminating, itDelete, itBound:
 			it.Task = r.Next()
+		case itUnbound:
+			it.Task = r.Next()
+			it.Flag = r.Bool()
 		case itPodAdd:
 			_ = r.Next()
 			it.Pod = sched.TaskSpec{ID: r.Next(), Job: r.Next(), Role: r.Next(), Prio: r.Next(), CPU: r.Next(), Mem: r.Next(),
@@ -250,6 +258,59 @@ func terminatingPod(t sched.TaskSpec) *v1.Pod {
 	return t.Pod()
 }
 
+// touchedPod: a copy of the pod with a label, an annotation and a status condition changed; with a
+// new resourceVersion (a real update) or the same one (informer resync)
+var podRev int
+
+func touchedPod(old *v1.Pod, newVersion bool) *v1.Pod {
+	p := old.DeepCopy()
+	podRev++
+	if p.Labels == nil {
+		p.Labels = map[string]string{}
+	}
+	p.Labels["verif/touch"] = fmt.Sprint(podRev)
+	p.Annotations["verif/touch"] = fmt.Sprint(podRev)
+	p.Status.Conditions = append(p.Status.Conditions, v1.PodCondition{Type: v1.PodConditionType(fmt.Sprintf("verif/c%d", podRev)), Status: v1.ConditionTrue})
+	if newVersion {
+		p.ResourceVersion = fmt.Sprint(1000 + podRev)
+	}
+	return p
+}
+
+// reservedBy: an accepted AddBindTask reserves the pod's request on its target node from then on,
+// until the pod is deleted -- whatever the pod objects delivered so far say (a bind in flight is
+// in no delivered pod object).  Law 112 counts these reservations together with what the node holds.
+func reservedBy(b bindCase, order []int, errs []error) map[int64]int64 {
+	res := map[int64]int64{}
+	for _, i := range order {
+		it := b.Items[i]
+		switch it.Kind {
+		case itBind:
+			if errs[i] == nil {
+				res[it.Bind[1]] = it.Bind[2]
+			}
+		case itDelete:
+			delete(res, it.Task)
+		}
+	}
+	return res
+}
+
+func mergeHeld(nid int64, tids []int64, reserved map[int64]int64) []int64 {
+	seen := map[int64]bool{}
+	for _, t := range tids {
+		seen[t] = true
+	}
+	out := append([]int64{}, tids...)
+	for t, n := range reserved {
+		if n == nid && !seen[t] {
+			out = append(out, t)
+		}
+	}
+	sort.Slice(out, func(i, j int) bool { return out[i] < out[j] })
+	return out
+}
+
 // finalSpecs: what law 112 judges against -- the last delivered object of every node and every pod
 // that was ever delivered.
 func (b bindCase) finalSpecs() bindCase {
@@ -356,6 +417,33 @@ func runBind(in []int64) ([]int64, []int64) {
 			curPod[it.Pod.ID] = p
 			evMu.Unlock()
 			sc.AddPod(p)
+		case itUnbound:
+			// someone wrote to the still unbound pod (or the informer resyncs it)
+			evMu.Lock()
+			old := curPod[it.Task]
+			nw := touchedPod(old, !it.Flag)
+			curPod[it.Task] = nw
+			evMu.Unlock()
+			sc.UpdatePod(old, nw)
+		case itBound:
+			// the binding reached the API server: the pod shows up with its nodeName
+			node := ""
+			for _, j := range sc.Jobs {
+				for _, t := range j.Tasks {
+					if sched.ParseID(string(t.UID)) == it.Task && t.Status == api.Binding {
+						node = t.NodeName
+					}
+				}
+			}
+			if node != "" {
+				evMu.Lock()
+				old := curPod[it.Task]
+				nw := touchedPod(old, true)
+				nw.Spec.NodeName = node
+				curPod[it.Task] = nw
+				evMu.Unlock()
+				sc.UpdatePod(old, nw)
+			}
 		}
 		return nil
 	}
@@ -407,10 +495,11 @@ func runBind(in []int64) ([]int64, []int64) {
 	nids := sched.SortedIDs(sc.Nodes, func(n string) int64 { return sched.ParseID(n) })
 	got = append(got, int64(len(nids)))
 	held := []int64{int64(len(nids))}
+	reserved := reservedBy(b, order, errs)
 	for _, n := range nids {
 		ni := sc.Nodes[sched.NodeName(n)]
 		got = append(got, sched.EncNode(ni, n)...)
-		tids := sched.SortedIDs(ni.Tasks, func(u api.TaskID) int64 { return sched.ParseID(string(u)) })
+		tids := mergeHeld(n, sched.SortedIDs(ni.Tasks, func(u api.TaskID) int64 { return sched.ParseID(string(u)) }), reserved)
 		held = append(held, n, int64(len(tids)))
 		held = append(held, tids...)
 	}
@@ -712,9 +801,70 @@ func weaveEvents(r *vh.Rng, b *bindCase, free map[int64][4]int64, lastTid int64,
 			deleted[t.ID] = true
 		}
 	}
+	// binds in flight (round 4): the pod object is still unbound while the cache holds it as Binding;
+	// someone updates the object (new resourceVersion) or the informer resyncs it (same one), more
+	// calls follow, and later the update that shows the pod bound arrives
+	fr := r.Fork()
+	touched := map[int64]bool{}
+	{
+		isPending := map[int64]bool{}
+		for _, t := range pending {
+			isPending[t.ID] = true
+		}
+		targets := []int64{}
+		for _, c := range calls {
+			if c.Kind == itBind && isPending[c.Bind[1]] {
+				targets = append(targets, c.Bind[1])
+			}
+		}
+		lastUnbound := map[int64]float64{}
+		if fr.Chance(1, 3) && len(pending) >= 2 {
+			// staged: p1 takes all that is free on the node, its object is updated, p2 is aimed at the node
+			nid := int64(fr.Range(1, len(b.Nodes)))
+			f := free[nid]
+			if f[0] >= 500 && f[2] >= 2 {
+				i1 := fr.Intn(len(pending))
+				i2 := (i1 + 1 + fr.Intn(len(pending)-1)) % len(pending)
+				p1, p2 := pending[i1], pending[i2]
+				for k := range b.Tasks {
+					switch b.Tasks[k].ID {
+					case p1.ID:
+						b.Tasks[k].CPU, b.Tasks[k].Mem, b.Tasks[k].GPU = (f[0]/250)*250, 0, 0
+					case p2.ID:
+						b.Tasks[k].CPU, b.Tasks[k].Mem, b.Tasks[k].GPU = int64(fr.Range(1, int(f[0]/250)))*250, 0, 0
+					}
+				}
+				evs = append(evs, timed{-0.4, item{Kind: itBind, Bind: [3]int64{p1.Job, p1.ID, nid}}})
+				evs = append(evs, timed{-0.3, item{Kind: itUnbound, Task: p1.ID, Flag: fr.Chance(1, 4)}})
+				evs = append(evs, timed{-0.2, item{Kind: itBind, Bind: [3]int64{p2.Job, p2.ID, nid}}})
+				touched[p1.ID], touched[p2.ID] = true, true
+				lastUnbound[p1.ID] = 0
+				targets = append(targets, p1.ID)
+			}
+		}
+		for k := 0; k < fr.Range(0, 3) && len(targets) > 0; k++ {
+			t := vh.Pick(fr, targets)
+			when := at(0, nc)
+			evs = append(evs, timed{when, item{Kind: itUnbound, Task: t, Flag: fr.Chance(1, 3)}})
+			touched[t] = true
+			if when > lastUnbound[t] {
+				lastUnbound[t] = when
+			}
+		}
+		if fr.Chance(1, 2) && len(targets) > 0 {
+			t := vh.Pick(fr, targets)
+			lo := int(lastUnbound[t]+0.5) + 1
+			if lo <= nc {
+				evs = append(evs, timed{at(lo, nc) + 0.3, item{Kind: itBound, Task: t}})
+				touched[t] = true
+			}
+		}
+	}
 	if !agent && r.Chance(1, 6) && len(pending) > 0 {
 		t := vh.Pick(r, pending)
-		evs = append(evs, timed{at(0, nc), item{Kind: itDelete, Task: t.ID}})
+		if !touched[t.ID] {
+			evs = append(evs, timed{at(0, nc), item{Kind: itDelete, Task: t.ID}})
+		}
 	}
 	// node updates: same allocatable (the common informer resync / label change), or more of it
 	for k := 0; k < r.Range(1, 3); k++ {
